@@ -128,8 +128,15 @@ class Engine(EngineBase, ExprMixin, CompMixin, CallMixin, FuncMixin, StmtMixin):
                             fin, res = self.bag_to_set(fin, res)
                         else:
                             fin, res = self.bag_to_seq(fin, res)
-                fin.frame.locals["result"] = res
+                rname = "ret" if "result" in locs else "result"
+                fin.frame.locals[rname] = res
                 self.excs.append([])
+                for lv, ex_ in con.ghost_updates.items():
+                    gv, gax = self.spec_eval_full(ex_, fin)
+                    for a_ in gax:
+                        fin = fin.assume(a_)
+                    fin = self.assign_to(fin, ast.parse(lv, mode="eval").body, gv)
+                    fin.frame.locals[rname] = res
                 for i, cl in enumerate(con.ensures):
                     self.oblige(fin, "post", f"#{i}", self.spec_goal(cl, fin), descr=f"ensures {cl!r}")
                 if cls and self.ct.classes[cls].spec.invariant:
